@@ -86,10 +86,11 @@ class Gen:
             kind = g.choice(kinds)
             s = self.seed()
             rdt = dt if real else "f8"
+            lay = g.choice(["c", "c", "c", "f", "strided", "tview"])
             if kind == "dense":
-                r = {"k": g.choice(["dense", "dense", "lazify"]), "n": n, "dtype": dt, "seed": s, "sym": "gen"}
+                r = {"k": g.choice(["dense", "dense", "lazify"]), "n": n, "dtype": dt, "seed": s, "sym": "gen", "layout": lay}
             elif kind == "dense_psd":
-                r = {"k": "dense", "n": n, "dtype": dt, "seed": s, "sym": "psd"}
+                r = {"k": "dense", "n": n, "dtype": dt, "seed": s, "sym": "psd", "layout": lay}
                 fl.update(psd=True, sym=True)
             elif kind == "dense_singular":  # degenerate input: PSD only up to round-off (rank n-1), or the zero matrix
                 r = {"k": "dense", "n": n, "dtype": dt, "seed": s, "sym": g.choice(["psd_singular", "psd_singular", "zero"])}
@@ -98,10 +99,10 @@ class Gen:
                 r = {"k": "dense", "n": n, "dtype": dt, "seed": s, "sym": "sym"}
                 fl.update(sym=True)
             elif kind == "diag":
-                r = {"k": "diag", "n": n, "dtype": rdt, "seed": s, "pos": True}
+                r = {"k": "diag", "n": n, "dtype": rdt, "seed": s, "pos": True, "layout": lay}
                 fl.update(psd=True, sym=True, dt=rdt, real=True)
             elif kind == "tridiag":
-                r = {"k": "tridiag", "n": max(n, 2), "dtype": rdt, "seed": s, "symm": g.random() < 0.7}
+                r = {"k": "tridiag", "n": max(n, 2), "dtype": rdt, "seed": s, "symm": g.random() < 0.7, "layout": lay}
                 fl.update(sym=r["symm"], dt=rdt, real=True, r=max(n, 2), c=max(n, 2))
             elif kind == "tri":
                 r = {"k": "tri", "n": n, "dtype": dt, "seed": s, "lower": g.random() < 0.5}
@@ -555,7 +556,8 @@ def gen_c18(g, run_seed, tier, opts):
                 G.maybe_alloc_fault(st, probe=pf, pbar=False)
             G.add(st)
         elif u < cfg["repeat_p"] + 0.08:
-            act = g.choice([["draw", "randn", 2], ["reseed", g.randrange(2**32)]])
+            act = g.choice([["draw", "randn", 2], ["reseed", g.randrange(2**32)],
+                            ["loglevel", g.choice(["DEBUG", "INFO", "ERROR"])]])
             G.add({"op": "user", "act": act, "slot": "s0"})
         elif u < cfg["repeat_p"] + 0.08 + 0.03:
             made = [s for s in G.steps if s["op"] == "make" and s["slot"] in G.slots]
@@ -703,6 +705,26 @@ ALPHABET = {
         _psd({"k": "dense", "n": 2, "dtype": "f8", "seed": 42, "sym": "psd_singular"}), _psd(D2)]})),
         call("inv", out="R_ks", A=S("Ks"))],
     "chol_zero": [mk("Pz", _psd({"k": "dense", "n": N, "dtype": "f8", "seed": 43, "sym": "zero"})), call("cholesky", A=S("Pz"))],
+    "refuse_inv_cg_nonpsd": [PRE["D"], call("solve", A=S("D"), b=B, alg="CG", akw={"max_iters": 3}, x0=X0)],
+    "refuse_chol_nonpsd": [PRE["D"], call("solve", A=S("D"), b=B, alg="Cholesky")],
+    "refuse_eig_lanczos_nonsa": [PRE["D"], call("eig", A=S("D"), k=1, which="LM", alg="Lanczos", akw={"max_iters": 3}, v0=V0)],
+    "refuse_diag_kron_k1": [mk("kron_b", {"k": "kron", "args": [D2, D2]}), call("diag_default", A=S("kron_b"), k=1)],
+    "refuse_matvec_shape": [PRE["D"], call("matvec", A=S("D"), x=arr([N + 1], "f8", 61))],
+    "refuse_product_shape": [PRE["D"], mk("bad_prod", {"k": "product", "args": [{"k": "ref", "slot": "D"}, D2]})],
+    "refuse_sum_shape": [PRE["D"], mk("bad_sum", {"k": "add", "a": {"k": "ref", "slot": "D"}, "b": D2})],
+    "refuse_chol_indef": [mk("Pi", _psd({"k": "dense", "n": N, "dtype": "f8", "seed": 44, "sym": "sym"})),
+                          call("solve", A=S("Pi"), b=B, alg="Cholesky"), call("cholesky", A=S("Pi"))],
+    "refuse_eig_which": [PRE["P"], call("eig", A=S("P"), k=1, which="XX")],
+    "refuse_hutch_tol": [PRE["G"], call("hutch", A=S("G"), tol=1e-5, max_iters=1, key=1)],
+    "refuse_identity_to_dtype": [PRE["I"], mk("bad_to", {"k": "to", "of": {"k": "ref", "slot": "I"}, "dtype": "f4"})],
+    "mv_dense_f": [mk("Df", dict(DN, layout="f")), call("matvec", A=S("Df"), x=B), call("rmatvec", A=S("Df"), x=B)],
+    "mv_dense_strided": [mk("Ds", dict(DN, layout="strided")), call("matvec", A=S("Ds"), x=B), call("rmatvec", A=S("Ds"), x=B),
+                         mk("DsT", {"k": "T", "of": {"k": "ref", "slot": "Ds"}}), call("matvec", A=S("DsT"), x=B2)],
+    "mv_dense_tview": [mk("Dt", dict(DN, layout="tview")), call("solve", A=S("Dt"), b=B2), call("plu", A=S("Dt"))],
+    "tridiag_strided": [mk("T3s", {"k": "tridiag", "n": N, "seed": 21, "symm": False, "layout": "strided"}),
+                        call("matvec", A=S("T3s"), x=B2), call("to_dense", A=S("T3s"))],
+    "chol_psd_f": [mk("Pf", _psd(dict(SP, layout="f"))), call("cholesky", A=S("Pf")), call("solve", A=S("Pf"), b=B, alg="CG",
+                                                                                       akw={"max_iters": 4})],
     "getitem": [PRE["D"], mk("a_gi", {"k": "getitem", "of": {"k": "ref", "slot": "D"}, "s0": [0, 2], "s1": None})],
     "nodisp": [PRE["P"], mk("a_nd", {"k": "no_dispatch", "of": {"k": "ref", "slot": "P"}})],
     # ---- actions on caller-owned arrays -------------------------------------------------------
@@ -813,7 +835,8 @@ ALPHABET3 = ["mk_dense", "mk_identity", "mk_generic", "mk_probe", "sum_b", "sum_
              "use_inv_cg", "use_inv_cg_X0", "use_sqrt_B", "use_sqrt_X0", "matvec_sum_B", "matvec_sum_X0", "eig_lanczos",
              "cg_reenter", "flatten_sum", "hutch", "import_precond", "algobj_cg_probe", "algobj_cg_block_raise",
              "algobj_cg_dense_of_inv_raise", "rsolve_chol", "rmv_inv_tri", "algobj_hutch_kron", "flatten_inv_cg", "ann_used_inv", "mm3_sl", "rmm3_sl",
-             "mm3_kron", "rmm3_kron", "to_f4_kron_l", "chol_singular"]
+             "mm3_kron", "rmm3_kron", "to_f4_kron_l", "chol_singular", "refuse_inv_cg_nonpsd", "refuse_chol_indef",
+             "mv_dense_strided"]
 
 
 def history(letters):
